@@ -226,8 +226,9 @@ class TokRun:
         raise Pruned()
 
     def frame(self):
+        """The frame that holds the tokeniser state (the function itself or a helper it was split into)."""
         for fr in reversed(self.it.frames):
-            if fr.fname == self.owner.fi.qualname:
+            if "sections" in fr.env and "word" in fr.env and fr.module is self.owner.fi.module:
                 return fr
         return None
 
@@ -236,8 +237,7 @@ class TokRun:
         if fr is None or self.ref.invalid:
             return
         env = fr.env
-        if "sections" not in env or "word" not in env:
-            raise AnalysisError("anchor vanished: locals `sections` / `word` of parse_single_name_into_parts")
+        self.owner.compared += 1
         secs = [[w for w in s.items] for s in env["sections"].items] if isinstance(env["sections"], AList) else None
         word = "".join(env["word"].items) if isinstance(env["word"], AList) and all(isinstance(x, str) for x in env["word"].items) else env["word"]
         # a pending escape: the code has already read the escaped character ahead; compare only when in step
@@ -318,6 +318,7 @@ class TokExplorer:
         self.paths = self.completed = self.pruned = self.invalid_runs = 0
         self.unsupported: List[str] = []
         self.samples: List[str] = []
+        self.compared = 0
         self.exc_cls = program.module("middlewares.names").classes.get("InvalidNameError")
         if self.exc_cls is None:
             raise AnalysisError("anchor vanished: InvalidNameError")
@@ -377,7 +378,7 @@ class TokExplorer:
             self.unsupported.append(str(u))
             outcome = "unsupported"
         return {"tape": list(ctx.tape), "alts": ctx.alts, "claims": run.claims, "outcome": outcome, "mismatch": run.mismatch,
-                "input": "".join(run.chars), "invalid": invalid}
+                "input": "".join(run.chars), "invalid": invalid, "compared": self.compared}
 
     def explore(self, jobs=None, max_paths=400000):
         import multiprocessing as mp
@@ -426,6 +427,7 @@ class TokExplorer:
                             nxt.append(a)
                     if cut is not None or r["outcome"] == "pruned":
                         self.pruned += 1
+                    self.compared_total = getattr(self, "compared_total", 0) + (1 if r.get("compared") else 0)
                     if r["outcome"] == "completed" and cut is None:
                         self.completed += 1
                         self.invalid_runs += int(r["invalid"])
